@@ -102,6 +102,10 @@ SCENARIOS = {
                                                ["wmeta", "f#1", 0, "log", 9113, True], ["wmeta", "f#1", 1, "log", 9114, True],
                                                ["rmeta", "f#1", 0, "log"], ["rmeta", "f#1", 1, "log"], ["fcall", "f#1", 1], ["rmeta", "f#1", 0, "log"],
                                                ["read", "f#1", 0], ["rmeta", "f#1", 1, "log"], ["lmems", "f#1"]],
+    "rememoize-identical-object": [["memoize", "f#1", 0, 9121, "B", 9121, 40, None], ["getm", "f#1", 0], ["read", "f#1", 0],
+                                   ["memoize", "f#1", 0, 9122, "B", 9121, 40, "ov/a"], ["getm", "f#1", 0], ["lmems", "f#1"], ["read", "f#1", 0],
+                                   ["memoize", "f#1", 0, 9123, "B", 9121, 40, None], ["getm", "f#1", 0], ["wmeta", "f#1", 0, "log", 9124, True], ["rmeta", "f#1", 0, "log"],
+                                   ["memoize", "g#1", 1, 9125, "B", 9121, 40, None], ["getm", "g#1", 1], ["getm", "f#1", 0]],
     "oversize-rememoize": [["memoize", "f#1", 0, 9021, "b", 9021, 100, None], ["read", "f#1", 0],
                            ["memoize", "f#1", 0, 9022, "b", 9022, 9000, None], ["read", "f#1", 0]],
     "stale-weakref": [["memoize", "f#1", 0, 9031, "n", 9031, 200, None], ["memoize", "f#1", 0, 9032, "b", 9032, 200, None],
